@@ -1,9 +1,9 @@
 (* C10 — FLAT transcriptions of utils.go calculateSubTree (level by level from the deepest row, temp nodes + temp
    holder queue) and hasher.go treeHasher on the (structure, nodes) lists, and a variant [layered_update_flat] of the
    layered model that uses them instead of the tree-recursive [norm] / [shash] of SMT/Layered.v.
-   STATUS: not proved equal to [norm] / [shash] (missing lemmas: [calc_subtree (flatten 0 raw) = Some (flatten 0 (norm raw))]
-   and [tree_hasher (flatten 0 st) = Some (shash st)] for sub-trees of depth <= h); the correspondence runs evaluate both
-   variants on every dumped history and require identical stores and roots (Corr/C10.v check_store). *)
+   STATUS: proved (SMT/LayeredFlatProofs.v): [calc_subtree (flatten 0 raw) = Some (flatten 0 (norm raw))] and
+   [tree_hasher (flatten 0 st) = Some (shash st)] for every sub-tree, and [layered_update_flat = layered_update] on every
+   store, root and batch (so the correspondence runs evaluate the tree variant only). *)
 From Coq Require Import List Bool Arith.
 From LE Require Import SMT.Spec SMT.Tree SMT.Layered.
 Import ListNotations.
